@@ -27,6 +27,7 @@ MIN_NONTRIVIAL = {'quick': 1000, 'thorough': 50000}
 HOSTILE = [
     "x '''abc\ndef'''\n", "values = (1\n 2)\n", "y = 1\nx = [1,\n     2\n     3]\n", "print('a'\n      'b' 'c'\n      d e)\n", "f(a,\n  b c,\n  d)\n", 'x = """abc\ndef\n',
     "def f():\n    return (1,\n            2 3)\n", "x\ry(", "a = 1\rb = (\r",
+    "y = 1\rx = [1,\r     2\r     3]\r", "print('a'\r      'b' 'c'\r      d e)\r", "f(a,\r  b c,\r  d)\r", "y = 1\r\nx = [1,\r\n     2\r\n     3]\r\n", "v = (1\r 2)",
     "x = '\ud800'\n", "\ud800 = 1\n", "# comment \udfff\nx = 1\n", "print('a')\nname_\udc80 = 2\n", "-" * 100000 + "1", "x = " + "not " * 60000 + "True\n",
     "y = 1\nx = " + "~" * 90000 + "1\n", "(" * 5000 + "1" + ")" * 5000, "[" * 3000 + "]" * 3000, "x = " + "1 + " * 100000 + "1\n", "a" + ".b" * 100000 + "\n",
     "x = " + "f(" * 2000 + ")" * 2000 + "\n", "if x:\n" * 150 + "pass\n",
@@ -131,6 +132,16 @@ def check_text(ctx, text, origin, mode):
         # the documented way to name the student's file when the submission is given as text
         report = MAIN_REPORT
         contextualize_report(text, filename='student_work.py')
+        call = lambda: verify()
+    elif mode == 'verify-again-after-other-text-failed' and kind == 'accept':
+        # the same (valid) text is verified, then some other text that does not parse, then the first one again: the answer and
+        # the stored tree are those of the text verified last
+        report = MAIN_REPORT
+        contextualize_report(text)
+        verify()
+        verify('this is ( not python\n', filename='scratch.py')
+        for f in [f for f in report.feedback if (f.category or '').lower() == 'syntax']:
+            report.feedback.remove(f)            # (the feedback about the other text is not what is judged here)
         call = lambda: verify()
     elif mode == 'verify-after-substitution-restored':
         # the grader looked at some other code for a while (set_source substitutes and verifies it) and went back to the submission
@@ -243,7 +254,7 @@ def check_text(ctx, text, origin, mode):
 
 
 MODES = ['verify', 'verify', 'set_source', 'private', 'section', 'set_source-other-filename', 'verify-given-code-and-filename',
-         'verify-after-substitution-restored', 'verify-after-the-submission-was-replaced', 'contextualize-under-another-filename']
+         'verify-after-substitution-restored', 'verify-after-the-submission-was-replaced', 'contextualize-under-another-filename', 'verify-again-after-other-text-failed']
 SECTION_PREFIXES = ['a = 1\rb = 2\n', 'a = 1\r\nb = 2\r\n', 'x = 1\r\r\ny = 2\n', '', 'a = 1\n', 'a = 1\nb = 2\n\n', '# page\x0cbreak\nx = "\x0c"\n', 'import math\n\n\n\n',
                     's = "\u2028"\nt = "\x1c\x1d"\n', '\n\n', 'def f():\n    return 1\n']
 
@@ -257,7 +268,7 @@ def run(ctx):
     repo = os.path.realpath(os.environ.get('VERIF_REPO', '/repo'))
     if ctx.shard == 0:
         for t in HOSTILE:
-            for mode in ('verify', 'set_source', 'private', 'section') + (('set_source-other-filename', 'verify-given-code-and-filename', 'verify-after-substitution-restored', 'verify-after-the-submission-was-replaced', 'contextualize-under-another-filename') if len(t) < 5000 else ()):
+            for mode in ('verify', 'set_source', 'private', 'section') + (('set_source-other-filename', 'verify-given-code-and-filename', 'verify-after-substitution-restored', 'verify-after-the-submission-was-replaced', 'contextualize-under-another-filename', 'verify-again-after-other-text-failed') if len(t) < 5000 else ()):
                 check_text(ctx, t, 'hostile', mode)
         # NUL / CR / FF / BOM inserted at every position of a short program
         base = 'x = 1\nif x:\n    print("a")\n'
